@@ -155,7 +155,7 @@ func runPlans(w *out.W, tier, outDir string) {
 		variants(w, tmp, fmt.Sprintf("c%d", ci), s.d, p, classOf(s), fmt.Sprintf("indent=%q shape=%d %s", indent, s.shape, strings.Join(fs, " ")), ci, thorough, s, "")
 	}
 	// 3. synthetic plans, with adversarial comments
-	comments := []string{"", "plain comment", "é starts with a non-ASCII byte", "semi; colon -- and /* markers */ # x", "two\nlines", "quote ' \" ` \\"}
+	comments := []string{"", "plain comment", "é starts with a non-ASCII byte", "semi; colon -- and /* markers */ # x", "two\nlines", "quote ' \" ` \\", "atlas:delimiter //"}
 	for si, s := range synthPlans() {
 		for ci, cm := range comments {
 			p := &migrate.Plan{Changes: make([]*migrate.Change, len(s.changes))}
